@@ -5,6 +5,7 @@ import (
 	"github.com/edsrzf/mmap-go"
 	"io"
 	"os"
+	"sync"
 	"unsafe"
 )
 
@@ -15,6 +16,9 @@ const (
 )
 
 type MMap struct {
+	// 保护映射区域: 读取持有读锁, 建立/解除映射(remap, ResetFileSize, Close)和写入持有写锁
+	// 旧数据文件的读取不持有数据库锁, 备份解除映射后多个读取方会并发地按需重建映射
+	mu          sync.RWMutex
 	file        *os.File
 	activeMap   mmap.MMap // 当前活动映射区域
 	endOff      int64     // 当前映射区域的右边界
@@ -53,9 +57,21 @@ func (m *MMap) Read(b []byte, offset int64) (int, error) {
 		return 0, io.EOF
 	}
 
-	if err := m.remap(offset, len(b)); err != nil {
-		return 0, err
+	// 映射区域未覆盖所需数据时独占地重建映射, 随后在读锁保护下拷贝
+	for {
+		m.mu.RLock()
+		if offset+int64(len(b)) <= m.endOff {
+			break
+		}
+		m.mu.RUnlock()
+		m.mu.Lock()
+		err := m.remap(offset, len(b))
+		m.mu.Unlock()
+		if err != nil {
+			return 0, err
+		}
 	}
+	defer m.mu.RUnlock()
 
 	// 计算实际可读范围
 	readEnd := offset + int64(len(b))
@@ -69,6 +85,8 @@ func (m *MMap) Read(b []byte, offset int64) (int, error) {
 }
 
 func (m *MMap) Write(b []byte) (int, error) {
+	m.mu.Lock()
+	defer m.mu.Unlock()
 	if err := m.remap(m.virtualSize, len(b)); err != nil {
 		return 0, err
 	}
@@ -80,6 +98,8 @@ func (m *MMap) Write(b []byte) (int, error) {
 
 func (m *MMap) Sync() error {
 	verifEvent("sync", m.file.Name(), nil, 0)
+	m.mu.Lock()
+	defer m.mu.Unlock()
 	// 映射已被 ResetFileSize 解除且此后无读写, 所有数据已刷新
 	if m.activeMap == nil {
 		return nil
@@ -102,6 +122,8 @@ func (m *MMap) Size() (int64, error) {
 }
 
 func (m *MMap) ResetFileSize() error {
+	m.mu.Lock()
+	defer m.mu.Unlock()
 	// 映射区域不能超出文件大小, 否则后续访问超出部分会触发 SIGBUS
 	// 先解除映射, 下次读写时按需重新扩展文件并映射
 	if m.activeMap != nil {
@@ -118,6 +140,7 @@ func (m *MMap) ResetFileSize() error {
 }
 
 // 如果有必要, 扩展映射区域
+// 调用方须持有 m.mu 写锁; 不变式: endOff > 0 时 activeMap 必然有效
 func (m *MMap) remap(newBase int64, dataSize int) error {
 	// 如果映射区域已包含所需数据, 直接返回
 	if newBase+int64(dataSize) <= m.endOff {
@@ -125,34 +148,37 @@ func (m *MMap) remap(newBase int64, dataSize int) error {
 	}
 
 	// 动态扩展 blockSize 的整数倍的长度
-	m.endOff = ((newBase + int64(dataSize) + blockSize - 1) / blockSize) * blockSize
+	newEnd := ((newBase + int64(dataSize) + blockSize - 1) / blockSize) * blockSize
 
 	// 如果新映射区域超过设置的文件大小, 则进行调整
-	if info, _ := m.file.Stat(); info.Size() < m.endOff {
-		verifEvent("truncate", m.file.Name(), nil, m.endOff)
-		if err := m.file.Truncate(m.endOff); err != nil {
+	if info, _ := m.file.Stat(); info.Size() < newEnd {
+		verifEvent("truncate", m.file.Name(), nil, newEnd)
+		if err := m.file.Truncate(newEnd); err != nil {
 			return fmt.Errorf("truncate failed: %v", err)
 		}
 	}
 
 	// 解除旧映射
 	if m.activeMap != nil {
+		m.endOff = 0
 		if err := m.activeMap.Unmap(); err != nil {
 			return fmt.Errorf("unmap failed: %v", err)
 		}
 	}
 
 	// 如果当前为 32 位系统, 判断新映射区域是否溢出
-	if unsafe.Sizeof(0) == 4 && m.endOff > 1<<31-1 {
+	if unsafe.Sizeof(0) == 4 && newEnd > 1<<31-1 {
 		return fmt.Errorf("32bit system max mapping size is 2GB")
 	}
 	// 创建新映射
-	data, err := mmap.MapRegion(m.file, int(m.endOff), mmap.RDWR, 0, 0)
+	data, err := mmap.MapRegion(m.file, int(newEnd), mmap.RDWR, 0, 0)
 	if err != nil {
 		return fmt.Errorf("mmap failed: %v", err)
 	}
 
+	// 映射建立成功后才发布新的右边界
 	m.activeMap = data
+	m.endOff = newEnd
 
 	return nil
 }
